@@ -93,6 +93,19 @@ class Engine:
         self.sha = hashlib.sha256(ast.get_source_segment(self.src, self.fn).encode()).hexdigest()[:16]
         self.in_spec = False; self.frozen = {}; self.ghost_names = set(); self.bmc = False; self.finals = []; self.scope_of = {}
         self.inst_name = ""; self.name_count = {}; self.defs = []
+        # occurrence numbers of assignments, by target (a local name, or the base array of a subscript store), in source order: anchors of ghost code
+        self.stmt_occ = {}; cnt = {}
+        asg = [n for n in ast.walk(self.fn) if isinstance(n, (ast.Assign, ast.AugAssign))]; asg.sort(key=lambda n: (n.lineno, n.col_offset))
+        for n in asg:
+            tg = (n.targets if isinstance(n, ast.Assign) else [n.target])
+            for t in tg:
+                for x in ([t] if not isinstance(t, ast.Tuple) else t.elts):
+                    b = x
+                    while isinstance(b, ast.Subscript): b = b.value
+                    if isinstance(b, ast.Name):
+                        key = ("store" if isinstance(x, ast.Subscript) else "assign", b.id); k = cnt.get(key, 0); cnt[key] = k + 1
+                        self.stmt_occ.setdefault(id(n), {})[key] = k
+        self.cur_stmt = None
         self.stats = {"paths_pruned": 0, "solver_prune_s": 0.0}
 
     def _find(self, qualname):
@@ -561,6 +574,9 @@ class Engine:
                 ref = st.heap.new(elem, dtype, (n,), None, f"{fname}_r{k}"); results.append(Val("arr", ref=ref, elem=elem, dtype=dtype))
             else: results.append(Val(kind, self.fc(f"{fname}_r{k}", sort_of(kind))))
         rv = results[0] if len(results) == 1 else Val("tuple", items=tuple(results))
+        # ghost results: witnesses the callee was PROVED to produce (its own ghost variables at return); the caller sees them as callghost_<name>
+        for gname, gkind in cc.get("ghost_returns", {}).items():
+            gv = Val(gkind, self.fc(f"{fname}_{gname}", sort_of(gkind))); cst.env[gname] = gv; st.env[f"callghost_{gname}"] = gv; self.ghost_names.add(f"callghost_{gname}")
         cst.env["result"] = rv
         for k, r_ in enumerate(results): cst.env[f"result{k}"] = r_
         for p in cc.get("ensures", []): addfact(self.spec(cst, p))
@@ -617,7 +633,10 @@ class Engine:
     def exec(self, st, s):
         m = getattr(self, "ex_" + type(s).__name__, None)
         if m is None: raise Unsupported(f"stmt {type(s).__name__} @L{s.lineno}")
-        outs = m(st, s)
+        saved_stmt = self.cur_stmt
+        if not self.ghost_mode: self.cur_stmt = s
+        try: outs = m(st, s)
+        finally: self.cur_stmt = saved_stmt
         return outs
 
     def ex_Expr(self, st, s):
@@ -649,9 +668,12 @@ class Engine:
             st.heap.arr[arr.ref] = z3.Store(st.heap.arr[arr.ref], i, j, z)
         else:
             i = self.norm_index(st, shape[0], idxs[0], line, label); st.heap.arr[arr.ref] = z3.Store(st.heap.arr[arr.ref], i, z)
-        for anchor, code in self.contract.get("ghost_updates", []):
-            if anchor == f"after_store({label})" or anchor == f"after_store({self.name_of(st, arr)})":
-                self.run_ghost(st, code)
+        if not self.ghost_mode:
+            nm = self.name_of(st, arr); occ = self.stmt_occ.get(id(self.cur_stmt), {})
+            for anchor, code in self.contract.get("ghost_updates", []):
+                for cand in {label, nm} - {None}:
+                    if anchor == f"after_store({cand})" or anchor == f"after_store({cand})#{occ.get(('store', cand), -1)}":
+                        self.run_ghost(st, code); break
 
     def store_row(self, st, arr, g, src, line):
         elem, dtype, ghost, label = st.heap.meta[arr.ref]
@@ -672,12 +694,12 @@ class Engine:
 
     ghost_mode = False
     def run_ghost(self, st, code):
-        saved = self.ghost_mode; self.ghost_mode = True
+        saved = self.ghost_mode; self.ghost_mode = True; saved_spec = self.in_spec; self.in_spec = True       # ghost code is specification: it may call spec functions
         try:
             for stmt in ast.parse(code).body:
                 outs = self.exec(st, stmt)
                 if len(outs) != 1 or outs[0][0] != "normal": raise Unsupported("branching ghost code")
-        finally: self.ghost_mode = saved
+        finally: self.ghost_mode = saved; self.in_spec = saved_spec
 
     def assign(self, st, target, val, line):
         if isinstance(target, ast.Name):
@@ -686,9 +708,14 @@ class Engine:
             # declares such locals in "var_types" and the kind-stability check at every loop end refuses silently diverging kinds
             vt = self.contract.get("var_types", {}).get(target.id)
             if vt is not None and val.kind != vt and val.kind in ("int", "bool", "float"): val = Val(vt, self.coerce(val, vt))
+            if not self.ghost_mode and self.contract.get("ghost_updates"):
+                occ = self.stmt_occ.get(id(self.cur_stmt), {}).get(("assign", target.id), -1)
+                pending = [code for anchor, code in self.contract["ghost_updates"] if anchor in (f"after_assign({target.id})", f"after_assign({target.id})#{occ}")]
+            else: pending = []
             if val.kind in ("int", "float", "bool", "opaque") and not z3.is_const(val.z) and not self.bmc:
                 c = self.fc(target.id, sort_of(val.kind)); self.defs.append(c == val.z); val = Val(val.kind, c)   # name the value: smaller terms, usable in triggers
             st.env[target.id] = val
+            for code in pending: self.run_ghost(st, code)
         elif isinstance(target, ast.Tuple):
             if val.kind != "tuple" or len(val.items) != len(target.elts): raise Unsupported("tuple assign")
             for t, v in zip(target.elts, val.items): self.assign(st, t, v, line)
